@@ -15,6 +15,7 @@ class SymEval:
         self.amap = astq.assignments(fi)
         self.stop = set(stop)
         self.depth = 0
+        self.atoms = False  # treat abs/real/imag/log/exp/conj of a polynomial as an opaque atom
 
     def sym(self, e):
         return P.s(astq.src(e, 60).replace(" ", ""))
@@ -89,6 +90,13 @@ class SymEval:
                 return P_pow(v, 0.5) if v is not None else None
             if nm in ("numpy.sum", "sum") and e.args:
                 return P.s(f"sum({astq.src(e.args[0], 40)})")
+            if self.atoms and e.args:
+                short = {"numpy.abs": "abs", "abs": "abs", "numpy.absolute": "abs", "numpy.real": "re", "numpy.imag": "im", "numpy.log": "log",
+                         "numpy.exp": "exp", "numpy.conj": "conj", "numpy.conjugate": "conj", "numpy.sqrt": None}.get(nm)
+                if short:
+                    v = self.ev(e.args[0])
+                    if v is not None:
+                        return P.s(f"{short}[{v!r}]")
             return None
         if isinstance(e, ast.Subscript):
             if isinstance(e.value, ast.Attribute) and e.value.attr == "shape":
@@ -96,6 +104,10 @@ class SymEval:
                 if isinstance(idx, ast.Constant):
                     return P.s(f"{astq.src(e.value.value, 40)}.shape[{idx.value}]")
             return P.s(astq.src(e, 60).replace(" ", ""))
+        if isinstance(e, ast.Attribute) and self.atoms and e.attr in ("real", "imag"):
+            v = self.ev(e.value)
+            if v is not None:
+                return P.s(f"{'re' if e.attr == 'real' else 'im'}[{v!r}]")
         if isinstance(e, ast.Attribute):
             r = self.prog.resolve_expr(self.fi.mod, e)
             from .program import Ext
